@@ -345,6 +345,15 @@ def run_shard(ctx):
                 text = lit_text(v, enumish=is_enum_type(inner) or (is_input_object_type(inner) and rng.random() < 0.7))
                 if text is None:
                     continue
+                if '{' in text and rng.random() < 0.1:
+                    # the same input field given twice (uniqueness is another rule's business: coercion and validation
+                    # must still agree with each other on such a literal)
+                    m = re.search(r'\{\s*([A-Za-z_][0-9A-Za-z_]*)\s*:', text)
+                    if m:
+                        dup = f' {m.group(1)}: {rng.choice(["null", "1", chr(34) + "x" + chr(34), "n", "true", "[]", "{}"])} '
+                        text = text[:m.start() + 1] + dup + text[m.start() + 1:] if rng.random() < 0.5 else \
+                            text[:m.start() + 1] + text[m.start() + 1:].replace('}', dup + '}', 1)
+                        ctx.count("literals_with_a_duplicated_field")
             else:
                 g = src.SrcGen(rng, names=names, keywords=0.0, hostile=0.1, max_depth=3)
                 g.value(True)
